@@ -32,8 +32,8 @@ RULE = (
 ASSUMPTIONS = ["one-variable linear model", "requested grids whose last point is not later than the start are excluded (refusal semantics are C04's)"]
 
 ROWS = [{"k": k, "c": c} for k in (0.0, 1.0, 2.0) for c in (0.0, 1.0)]
-BASE = {"k": 1.0, "c": 2.0}
-X0 = 1.0
+BASE = {"k": 1.0, "c": 1.0}  # equal to one of the protocol rows
+X0 = 2.5
 RTOL, ATOL = 5e-6, 2e-7
 
 
@@ -91,7 +91,7 @@ def generate(tier):
         subsets = [list(s) for r in (1, 2, 3) for s in it.combinations(range(len(cand)), r)]
         if tier == "quick" and len(durs) == 3:
             subsets = subsets[::3]
-        for start in ("fresh", "continued", "override"):
+        for start in ("fresh", "continued", "override", "param-changed"):
             for sub in subsets:
                 pts = [cand[i] for i in sub]
                 if max(pts) <= 0.0:
@@ -121,7 +121,8 @@ def check(case):
     T = 0.0
     x = X0
     segs = []  # (t0, x0, t1, params)
-    if case["start"] in ("continued", "override"):
+    params = dict(BASE)
+    if case["start"] in ("continued", "override", "param-changed"):
         sim.simulate(1.0, steps=2)
         segs.append((0.0, X0, 1.0, dict(BASE)))
         x = closed_form(1.0, 0.0, X0, {**BASE, "a": 0.0})
@@ -129,11 +130,14 @@ def check(case):
         if case["start"] == "override":
             sim.update_variable("x", 2.0)
             x = 2.0
+        if case["start"] == "param-changed":
+            # changed without simulating: the protocol's own values must still apply from its first step on
+            sim.update_parameter("k", 5.0)
+            params["k"] = 5.0
     prior_rows = 3 if T > 0 else 0
     start = T
     bounds = []
     t = T
-    params = dict(BASE)
     for d, row in steps:
         params = {**params, **row}
         segs.append((t, x, t + d, dict(params)))
